@@ -128,9 +128,18 @@ def f2(ctx):
                         continue
                 n += 1
                 fs = implied_facts(ev.guards(res, r["bb"]))
+                is_tail = lambda f: f[0] == "cmp" and f[1] == "Eq" and any(tag(x) == "named" and x[1] == "SENTINEL_SEGMENT_NODE_OFFSET" for x in (f[2], f[3]))
                 accepted = ("bool", chk, True) in fs
-                tail = any(f[0] == "cmp" and f[1] == "Eq" and tag(f[3]) == "named" and f[3][1] == "SENTINEL_SEGMENT_NODE_OFFSET" for f in fs)
+                tail = any(is_tail(f) for f in fs)
                 ok = accepted or (name == "find_position" and tail)
+                if not ok:
+                    # one return behind the loop (`while next != TAIL { .. if check(..) { break } .. }`): judge every way of reaching it
+                    import dnf as D
+                    cond = D.block_dnf(ev, res, b, r["bb"])
+                    if cond:
+                        acc_all = all(("bool", chk, True) in c for c in cond)
+                        ok = all(("bool", chk, True) in c or (name == "find_position" and any(is_tail(f) for f in c)) for c in cond)
+                        accepted, tail = acc_all, ok and not acc_all
                 yield Ob(key_of("C10-F2", b.path, "return", n), ok, "returns %s" % ("where the comparator accepted next" if accepted else ("at the tail" if tail else "WITHOUT the comparator accepting and not at the tail")), ctx.loc(r))
 
 
